@@ -25,6 +25,8 @@ func main() {
 	pkgPat := flag.String("pkg", ".", "package pattern containing the harness")
 	flag.Var(&overlays, "overlay", "virtual=real overlay mapping (repeatable)")
 	flag.Var(&harnesses, "harness", "harness function name (repeatable)")
+	var fixes multi
+	flag.Var(&fixes, "fix", "name=value: fix the outcome of vChoice(name) (repeatable)")
 	tags := flag.String("tags", "verif", "build tags")
 	maxInstr := flag.Int64("max-instr", 2_000_000, "instruction budget per path")
 	maxDec := flag.Int("max-decisions", 20000, "decision budget per path")
@@ -72,6 +74,13 @@ func main() {
 		fmt.Fprintln(os.Stderr, err)
 		os.Exit(2)
 	}
+	fixed := map[string]int{}
+	for _, f := range fixes {
+		kv := strings.SplitN(f, "=", 2)
+		var v int
+		fmt.Sscan(kv[1], &v)
+		fixed[kv[0]] = v
+	}
 	var results []*symgo.Result
 	for _, h := range harnesses {
 		opt := symgo.Options{
@@ -89,6 +98,7 @@ func main() {
 			LogDir:      *logDir,
 			Verbose:     *verbose,
 			C06:         *c06,
+			Fixed:       fixed,
 		}
 		if *sitePkgs != "" {
 			opt.SitePkgs = []string{*sitePkgs}
